@@ -626,4 +626,17 @@ def printStride (s : Stride) : List Tok :=
   [match s.bound with | some b => Tok.int b | none => Tok.question, .arrow,
    match s.step with | some st => Tok.int st | none => Tok.question]
 
+/-! ## Vocabulary for the general statement about subview pointers -/
+
+/-- every offset rounded down to a multiple of the inner tile size of its dimension -/
+def floorTile : SLayout → List Nat → List Nat
+  | t :: ts, v :: vs => (v / prodB t.tail * prodB t.tail) :: floorTile ts vs
+  | _, _ => []
+
+/-- one offset per dimension, every dimension tiled at least once -/
+def Shaped : SLayout → List Nat → Prop
+  | t :: ts, _ :: vs => t ≠ [] ∧ Shaped ts vs
+  | [], [] => True
+  | _, _ => False
+
 end SnaxVerif.Tsl
